@@ -18,7 +18,7 @@ func init() {
 		Text: "ErrDecimal.Err never hides a recorded error: every return of Err that does not deliver e.err itself is reached only where e.err was tested and found nil",
 		Run:  ruleErrReturnsStoredError})
 	register(&Rule{ID: "C12.R5", Min: 1,
-		Text: "working contexts of the composite functions round to nearest-even: a context copied from the caller's (c.WithPrecision) and handed to MakeErrDecimal has its Rounding stored RoundHalfEven on every path before that (a directed mode inherited from the caller biases every intermediate step the same way: series terms stop shrinking and convergence tests never succeed)",
+		Text: "working contexts of the composite functions round to nearest-even: a context handed to MakeErrDecimal is a copy of BaseContext, or a copy of the caller's (c.WithPrecision) with its Rounding stored RoundHalfEven on every path before that (a directed mode inherited from the caller biases every intermediate step the same way: series terms stop shrinking and convergence tests never succeed)",
 		Run:  ruleWorkingContextHalfEven})
 	register(&Rule{ID: "C07.R7", Min: 1,
 		Text: "a zero whose exponent is above the range is clamped to MaxExponent: in setExponent the exponent finally stored on the path that raises Clamped under v > c.MaxExponent is c.MaxExponent",
@@ -200,7 +200,9 @@ func ruleErrReturnsStoredError(w *World, r *RuleResult) {
 
 func ruleWorkingContextHalfEven(w *World, r *RuleResult) {
 	halfEven := w.rounderConsts()["RoundHalfEven"]
-	for _, name := range []string{"(*Context).Sqrt", "(*Context).Cbrt", "(*Context).Ln", "(*Context).Log10", "(*Context).Exp", "(*Context).Pow"} {
+	// Sqrt is not in the list: its iteration runs a fixed number of steps and the root is located exactly
+	// afterwards (C11.R3), so the rounding mode of its steps cannot change the result
+	for _, name := range []string{"(*Context).Cbrt", "(*Context).Ln", "(*Context).Log10", "(*Context).Exp", "(*Context).Pow"} {
 		top := w.fn(name)
 		if top == nil {
 			r.anchorMissing(name)
@@ -213,12 +215,16 @@ func ruleWorkingContextHalfEven(w *World, r *RuleResult) {
 				if ci == nil {
 					continue
 				}
-				if _, fromParam := ci.fromParam(); !fromParam {
-					continue // derived from BaseContext: its mode does not depend on the caller
-				}
 				key := fmt.Sprintf("%s | working context rounds half-even", w.shortName(f))
 				if n := countKey(r, key); n > 0 {
 					key = fmt.Sprintf("%s #%d", key, n+1)
+				}
+				if _, fromParam := ci.fromParam(); !fromParam {
+					// derived from BaseContext: its mode does not depend on the caller
+					if ci.fromBaseContext() {
+						r.ok(key, w.instrPos(mk), "the working context is a copy of BaseContext (a round-to-nearest mode whatever the caller's)", true)
+					}
+					continue
 				}
 				stored := seenBefore(mk, func(in ssa.Instruction) bool {
 					st, ok := in.(*ssa.Store)
@@ -620,59 +626,12 @@ func ruleSqrtExactLastDigit(w *World, r *RuleResult) {
 			copies[basePtr(c.Common().Args[0])] = true
 		}
 	}
-	// exact squares: Mul(dst, v, v) on an ErrDecimal made from BaseContext itself
-	squares := map[ssa.Value]bool{}
-	for _, m := range w.callsTo(f, "(*ErrDecimal).Mul") {
-		a := m.Common().Args
-		if len(a) != 4 || basePtr(a[2]) != basePtr(a[3]) {
-			continue
-		}
-		for _, mk := range w.callsTo(f, "MakeErrDecimal") {
-			if gl, isG := basePtr(mk.Common().Args[0]).(*ssa.Global); isG && gl.Name() == "BaseContext" && w.sameErrDecimal(f, a[0], mk) {
-				squares[basePtr(a[1])] = true
-			}
-		}
-	}
-	// comparisons operand-copy vs exact square
-	var cmps []*ssa.Call
-	for _, c := range w.callsTo(f, "(*Decimal).Cmp") {
-		a0, a1 := basePtr(c.Common().Args[0]), basePtr(c.Common().Args[1])
-		if (copies[a0] && squares[a1]) || (copies[a1] && squares[a0]) {
-			cmps = append(cmps, c)
-		}
-	}
-	// or through an exact integer power comparison cmp(v, 2, operand copy)
-	for _, pc := range w.exactPowerCmps(f, 2) {
-		if copies[pc.x] {
-			cmps = append(cmps, pc.call)
-		}
-	}
-	// one comparison steers an increment of a coefficient, one steers the Inexact flag
 	steersIncr, steersInexact := false, false
+	var limited, viaMul []string
+	nCmps := 0
 	inexact := w.conditionConsts()["Inexact"]
-	for _, c := range cmps {
-		for _, b := range f.Blocks {
-			iff, isIf := b.Instrs[len(b.Instrs)-1].(*ssa.If)
-			if !isIf || !w.condMentions(iff.Cond, c) {
-				continue
-			}
-			for _, sc := range b.Succs {
-				for _, in := range sc.Instrs {
-					ac, isCall := in.(*ssa.Call)
-					if !isCall {
-						continue
-					}
-					switch w.calleeName(ac) {
-					case "(*BigInt).Add":
-						steersIncr = true
-					case "(*ErrDecimal).Add", "(*ErrDecimal).Sub", "(*Decimal).Set":
-						// the candidate is moved to its neighbour: v = v ± ulp, v = next
-						steersIncr = true
-					}
-				}
-			}
-		}
-		// the comparison's outcome reaches an OR with Inexact (possibly through a bool local)
+	// boolSteersInexact: in the caller, the boolean v decides whether Inexact is or-ed in
+	boolSteersInexact := func(v ssa.Value) bool {
 		for _, b := range f.Blocks {
 			for _, in := range b.Instrs {
 				bo, isB := in.(*ssa.BinOp)
@@ -682,33 +641,106 @@ func ruleSqrtExactLastDigit(w *World, r *RuleResult) {
 				for _, o := range []ssa.Value{bo.X, bo.Y} {
 					if bits, isK := condBits(o); isK && bits&inexact != 0 {
 						for _, g := range guardsAt(b) {
-							if w.condMentions(g.Cond, c) {
-								steersInexact = true
+							if w.condMentions(g.Cond, v) {
+								return true
 							}
-							// through a boolean: inexact := sq.Cmp(&f) != 0 ; if inexact {...}
-							if cmpBo, isC := g.Cond.(*ssa.BinOp); isC && w.condMentions(cmpBo, c) {
-								steersInexact = true
-							}
-							// through a boolean set under the comparison: if sq.Cmp(&f) != 0 { inexact = true … } ; if inexact {...}
-							if phi, isPhi := g.Cond.(*ssa.Phi); isPhi {
-								for ei, e := range phi.Edges {
-									k, isK := e.(*ssa.Const)
-									if !isK || constBoolTrue(k) != g.Val {
-										continue
-									}
-									pred := phi.Block().Preds[ei]
-									for _, pg := range append(edgeGuards(pred, phi.Block()), guardsAt(pred)...) {
-										if w.condMentions(pg.Cond, c) {
-											steersInexact = true
+						}
+					}
+				}
+			}
+		}
+		return false
+	}
+	analyse := func(hf *ssa.Function, copies map[ssa.Value]bool, viaCall *ssa.Call) {
+		// exact squares: Mul(dst, v, v) on an ErrDecimal made from BaseContext itself
+		squares := map[ssa.Value]bool{}
+		for _, m := range w.callsTo(hf, "(*ErrDecimal).Mul") {
+			a := m.Common().Args
+			if len(a) != 4 || basePtr(a[2]) != basePtr(a[3]) {
+				continue
+			}
+			for _, mk := range w.callsTo(hf, "MakeErrDecimal") {
+				if gl, isG := basePtr(mk.Common().Args[0]).(*ssa.Global); isG && gl.Name() == "BaseContext" && w.sameErrDecimal(hf, a[0], mk) {
+					squares[basePtr(a[1])] = true
+				}
+			}
+		}
+		// comparisons operand-copy vs exact square
+		var cmps []*ssa.Call
+		_ = cmps
+		for _, c := range w.callsTo(hf, "(*Decimal).Cmp") {
+			a0, a1 := basePtr(c.Common().Args[0]), basePtr(c.Common().Args[1])
+			if (copies[a0] && squares[a1]) || (copies[a1] && squares[a0]) {
+				cmps = append(cmps, c)
+			}
+		}
+		// or through an exact integer power comparison cmp(v, 2, operand copy)
+		for _, pc := range w.exactPowerCmps(hf, 2) {
+			if copies[pc.x] {
+				cmps = append(cmps, pc.call)
+			}
+		}
+		// one comparison steers an increment of a coefficient, one steers the Inexact flag
+		for _, c := range cmps {
+			for _, b := range hf.Blocks {
+				iff, isIf := b.Instrs[len(b.Instrs)-1].(*ssa.If)
+				if !isIf || !w.condMentions(iff.Cond, c) {
+					continue
+				}
+				for _, sc := range b.Succs {
+					for _, in := range sc.Instrs {
+						ac, isCall := in.(*ssa.Call)
+						if !isCall {
+							continue
+						}
+						switch w.calleeName(ac) {
+						case "(*BigInt).Add":
+							steersIncr = true
+						case "(*ErrDecimal).Add", "(*ErrDecimal).Sub", "(*Decimal).Set":
+							// the candidate is moved to its neighbour: v = v ± ulp, v = next
+							steersIncr = true
+						}
+					}
+				}
+			}
+			// the comparison's outcome reaches an OR with Inexact (possibly through a bool local)
+			for _, b := range hf.Blocks {
+				for _, in := range b.Instrs {
+					bo, isB := in.(*ssa.BinOp)
+					if !isB || bo.Op != token.OR {
+						continue
+					}
+					for _, o := range []ssa.Value{bo.X, bo.Y} {
+						if bits, isK := condBits(o); isK && bits&inexact != 0 {
+							for _, g := range guardsAt(b) {
+								if w.condMentions(g.Cond, c) {
+									steersInexact = true
+								}
+								// through a boolean: inexact := sq.Cmp(&f) != 0 ; if inexact {...}
+								if cmpBo, isC := g.Cond.(*ssa.BinOp); isC && w.condMentions(cmpBo, c) {
+									steersInexact = true
+								}
+								// through a boolean set under the comparison: if sq.Cmp(&f) != 0 { inexact = true … } ; if inexact {...}
+								if phi, isPhi := g.Cond.(*ssa.Phi); isPhi {
+									for ei, e := range phi.Edges {
+										k, isK := e.(*ssa.Const)
+										if !isK || constBoolTrue(k) != g.Val {
+											continue
+										}
+										pred := phi.Block().Preds[ei]
+										for _, pg := range append(edgeGuards(pred, phi.Block()), guardsAt(pred)...) {
+											if w.condMentions(pg.Cond, c) {
+												steersInexact = true
+											}
 										}
 									}
 								}
 							}
-						}
-						for _, pb := range b.Preds {
-							for _, g := range edgeGuards(pb, b) {
-								if w.condMentions(g.Cond, c) {
-									steersInexact = true
+							for _, pb := range b.Preds {
+								for _, g := range edgeGuards(pb, b) {
+									if w.condMentions(g.Cond, c) {
+										steersInexact = true
+									}
 								}
 							}
 						}
@@ -716,24 +748,24 @@ func ruleSqrtExactLastDigit(w *World, r *RuleResult) {
 				}
 			}
 		}
-	}
-	// a boolean φ of the comparison guarding the OR
-	if !steersInexact {
-		for _, c := range cmps {
-			if refs := c.Referrers(); refs != nil {
-				for _, u := range *refs {
-					if bo, isB := u.(*ssa.BinOp); isB && (bo.Op == token.NEQ || bo.Op == token.EQL) {
-						for _, blk := range f.Blocks {
-							iff, isIf := blk.Instrs[len(blk.Instrs)-1].(*ssa.If)
-							if !isIf || !w.condMentions(iff.Cond, bo) {
-								continue
-							}
-							for _, sc := range blk.Succs {
-								for _, in := range sc.Instrs {
-									if ob, isO := in.(*ssa.BinOp); isO && ob.Op == token.OR {
-										for _, o := range []ssa.Value{ob.X, ob.Y} {
-											if bits, isK := condBits(o); isK && bits&inexact != 0 {
-												steersInexact = true
+		// a boolean φ of the comparison guarding the OR
+		if !steersInexact {
+			for _, c := range cmps {
+				if refs := c.Referrers(); refs != nil {
+					for _, u := range *refs {
+						if bo, isB := u.(*ssa.BinOp); isB && (bo.Op == token.NEQ || bo.Op == token.EQL) {
+							for _, blk := range hf.Blocks {
+								iff, isIf := blk.Instrs[len(blk.Instrs)-1].(*ssa.If)
+								if !isIf || !w.condMentions(iff.Cond, bo) {
+									continue
+								}
+								for _, sc := range blk.Succs {
+									for _, in := range sc.Instrs {
+										if ob, isO := in.(*ssa.BinOp); isO && ob.Op == token.OR {
+											for _, o := range []ssa.Value{ob.X, ob.Y} {
+												if bits, isK := condBits(o); isK && bits&inexact != 0 {
+													steersInexact = true
+												}
 											}
 										}
 									}
@@ -744,28 +776,98 @@ func ruleSqrtExactLastDigit(w *World, r *RuleResult) {
 				}
 			}
 		}
-	}
-	// the exact location must not be skipped for some results: a comparison site guarded by the context's
-	// exponent limits means that results outside the normal range (subnormal ones) are rounded from the
-	// iterate after all, twice
-	var limited []string
-	for _, c := range cmps {
-		for _, g := range guardsAt(c.Block()) {
-			for l := range w.exprOf(f, g.Cond).leaves() {
-				if strings.HasSuffix(l, ".MinExponent") || strings.HasSuffix(l, ".MaxExponent") {
-					limited = append(limited, w.instrPos(c)+" under "+short(w.exprOf(f, g.Cond).String(), 80))
+		// the exact location must not be skipped for some results: a comparison site guarded by the context's
+		// exponent limits means that results outside the normal range (subnormal ones) are rounded from the
+		// iterate after all, twice
+		for _, c := range cmps {
+			for _, g := range guardsAt(c.Block()) {
+				for l := range w.exprOf(hf, g.Cond).leaves() {
+					if strings.HasSuffix(l, ".MinExponent") || strings.HasSuffix(l, ".MaxExponent") {
+						limited = append(limited, w.instrPos(c)+" under "+short(w.exprOf(hf, g.Cond).String(), 80))
+					}
 				}
 			}
 		}
+		// … and must not itself be subject to the exponent limits: the square of a Precision-digit candidate,
+		// formed by a Decimal multiplication, has twice its exponent
+		for _, c := range cmps {
+			if w.calleeName(c) == "(*Decimal).Cmp" {
+				viaMul = append(viaMul, w.instrPos(c))
+			}
+		}
+
+		// the helper's boolean result, set under the comparison, decides Inexact in the caller
+		if viaCall != nil && !steersInexact {
+			for _, c := range cmps {
+				for _, hb := range hf.Blocks {
+					rt, isRet := hb.Instrs[len(hb.Instrs)-1].(*ssa.Return)
+					if !isRet {
+						continue
+					}
+					for ri, rv := range rt.Results {
+						if rv.Type().String() != "bool" {
+							continue
+						}
+						steered := w.condMentions(rv, c)
+						if phi, isPhi := rv.(*ssa.Phi); isPhi && !steered {
+							for ei := range phi.Edges {
+								pred := phi.Block().Preds[ei]
+								for _, pg := range append(edgeGuards(pred, phi.Block()), guardsAt(pred)...) {
+									if w.condMentions(pg.Cond, c) {
+										steered = true
+									}
+								}
+							}
+						}
+						if !steered {
+							for _, pg := range guardsAt(hb) {
+								if w.condMentions(pg.Cond, c) {
+									steered = true
+								}
+							}
+						}
+						if !steered {
+							continue
+						}
+						// the caller's use of result #ri
+						if refs := viaCall.Referrers(); refs != nil {
+							for _, u := range *refs {
+								if ex, isEx := u.(*ssa.Extract); isEx && ex.Index == ri && boolSteersInexact(ex) {
+									steersInexact = true
+								}
+							}
+						}
+						if hf.Signature.Results().Len() == 1 && boolSteersInexact(viaCall) {
+							steersInexact = true
+						}
+					}
+				}
+			}
+		}
+		nCmps += len(cmps)
 	}
-	// … and must not itself be subject to the exponent limits: the square of a Precision-digit candidate,
-	// formed by a Decimal multiplication, has twice its exponent
-	var viaMul []string
-	for _, c := range cmps {
-		if w.calleeName(c) == "(*Decimal).Cmp" {
-			viaMul = append(viaMul, w.instrPos(c))
+	analyse(f, copies, nil)
+	// the location may be delegated to an unexported helper that is handed the operand copy
+	for _, ci := range callsIn(f) {
+		hc, isC := ci.(*ssa.Call)
+		if !isC {
+			continue
+		}
+		h := callee(hc)
+		if h == nil || !w.inPkg(h) || len(h.Blocks) == 0 || (h.Object() != nil && h.Object().Exported()) || len(h.Params) != len(hc.Common().Args) {
+			continue
+		}
+		hcopies := map[ssa.Value]bool{}
+		for j, a := range hc.Common().Args {
+			if copies[basePtr(a)] {
+				hcopies[ssa.Value(h.Params[j])] = true
+			}
+		}
+		if len(hcopies) > 0 {
+			analyse(h, hcopies, hc)
 		}
 	}
+	cmps := make([]int, nCmps)
 	switch {
 	case len(cmps) >= 2 && steersIncr && steersInexact && len(limited) > 0:
 		r.bad(key, w.pos(f.Pos()), "the exact decision of the last digit is made only under a test of the context's exponent range ("+strings.Join(uniqStrings(limited), "; ")+"): a result that is subnormal for the context is rounded from the iterate, twice (Sqrt(0.00999999) at Precision 7, MinExponent -1 = 0.1000000; Sqrt(0.9999999998) at Precision 12, MinExponent 0 without Inexact)")
